@@ -2,9 +2,10 @@ import Verif.Driver.Align
 import Verif.Driver.SoundClass
 import Verif.Driver.Cluster
 import Verif.Driver.TreeDist
+import Verif.Driver.Heap
 open Verif.Driver
 
-def handlers : List (List (List String) → Option String) := [handleAlign, handleSC, handleCluster, handleTree]
+def handlers : List (List (List String) → Option String) := [handleAlign, handleSC, handleCluster, handleTree, handleHeap]
 
 def dispatch (line : String) : String :=
   let fs := fields line
